@@ -408,7 +408,10 @@ def run(ctx):
     from orquestra.quantum.api import circuit_runner as CRm, wavefunction_simulator as WSm
     from orquestra.quantum.runners import trackers as TRm
 
-    ctx.fn(CRm.BaseCircuitRunner.run_and_measure, CRm.BaseCircuitRunner.run_batch_and_measure, CRm.BaseCircuitRunner._run_batch_and_measure, CRm.BaseCircuitRunner.get_measurement_outcome_distribution, WSm.BaseWavefunctionSimulator.get_wavefunction, WSm.BaseWavefunctionSimulator.run_and_measure, WSm.BaseWavefunctionSimulator.get_measurement_outcome_distribution, TRm.MeasurementTrackingBackend.run_batch_and_measure, TRm.MeasurementTrackingBackend._run_and_measure)
+    try:  # evidence only: a renamed private helper must not break the check
+        ctx.fn(CRm.BaseCircuitRunner.run_and_measure, CRm.BaseCircuitRunner.run_batch_and_measure, CRm.BaseCircuitRunner._run_batch_and_measure, CRm.BaseCircuitRunner.get_measurement_outcome_distribution, WSm.BaseWavefunctionSimulator.get_wavefunction, WSm.BaseWavefunctionSimulator.run_and_measure, WSm.BaseWavefunctionSimulator.get_measurement_outcome_distribution, TRm.MeasurementTrackingBackend.run_batch_and_measure, TRm.MeasurementTrackingBackend._run_and_measure)
+    except AttributeError:
+        pass
     tmo = 40 if ctx.tier == "quick" else 240
     only = getattr(ctx, "only", None)
     if not only or only.startswith("h_") or only == "xh":
